@@ -14,6 +14,11 @@ import CookModel.Lemmas.ExtLawsEvents
 import CookModel.Lemmas.DiagExactComp
 import CookModel.Lemmas.DiagEmptyValue
 import CookModel.Lemmas.DiagAnalysisExact
+import CookModel.Lemmas.DiagSoundDoc
+import CookModel.Lemmas.DiagAnalysisIff
+import CookModel.Lemmas.DiagRefChecksExact
+import CookModel.Lemmas.DiagEmptyValueMore
+import CookModel.Lemmas.DiagSoundConv
 /-
   C07  Diagnostics are sound, complete and placed on the offending construct.
 
@@ -1572,5 +1577,510 @@ example : (parseEvents C01_toyEnv [] C01_exSimple.events).isValid = true := by
   · intro st hst
     simp only [C01_exSimple, List.mem_cons, List.not_mem_nil, or_false] at hst
     rcases hst with rfl | rfl <;> simp
+
+/-! ### Soundness on whole documents: sections, `>>` lines, text paragraphs, references (wave 4)
+
+  `event_consumer.rs` pushes the deprecation notice ("The '>>' syntax for metadata is deprecated …",
+  kind `meta-deprecated`) at the end of `parse_events`, under EVERY extension set, exactly when at
+  least one `>>` entry was recorded in `old_style_metadata_used` (a `[mode]`-style key under MODES is a
+  switch and is not recorded), with one label per recorded entry.  It is a WARNING of the analysis
+  stage — the one warning the property allows on a well-formed recipe. -/
+
+/-- **A well-formed document is quiet apart from the `>>` notice, under every extension set.**  For every
+    document accepted by `C01_recipe_doc` — steps (plain definitions), section lines, plain `>>` metadata
+    lines, text paragraphs, with the syntactic side conditions of the printer; under ADVANCED_UNITS /
+    INLINE_QUANTITIES the timers are numeric with a time unit and the texts show no inline quantity
+    (`DocItem.extOK`) — `CooklangParser::parse` on the printed text
+    * reports EXACTLY: nothing when the document has no `>>` line; otherwise the ONE diagnostic
+      `meta-deprecated` (severity warning, stage analysis) carrying one label per `>>` line;
+    * so every reported diagnostic is that notice, none is an error;
+    * the result has output, is valid, and no panic site is reached. -/
+theorem C07_sound_recipe_doc (env : Env) (pre : List Tok) (doc : List (DocItem × List Tok))
+    (hpre : blankLinesOK pre = true) (hok : ∀ d ∈ doc, d.1.ok env.cs env.ext = true)
+    (hsimple : ∀ d ∈ doc, d.1.simple = true) (hplain : ∀ d ∈ doc, d.1.plain env)
+    (hext : ∀ d ∈ doc, d.1.extOK α env)
+    (hseps : sepsOK (doc.map (·.2)) = true) (hw : WellSpelled env.cs (pre ++ docSpec doc))
+    (hfm : parseFrontmatter env.cs (render (pre ++ docSpec doc)) = none) :
+    ∃ spans : List Span, spans.length = ((doc.map (·.1)).filter DocItem.isMeta).length ∧
+      (parseRecipe (α := α) env (render (pre ++ docSpec doc))).diags =
+        (if ((doc.map (·.1)).filter DocItem.isMeta).length = 0 then #[]
+         else #[⟨.warning, .analysis, "meta-deprecated", spans⟩]) ∧
+      (∀ d ∈ (parseRecipe (α := α) env (render (pre ++ docSpec doc))).diags.toList,
+        d = ⟨.warning, .analysis, "meta-deprecated", spans⟩ ∧ d.sev ≠ .error ∧
+        ((doc.map (·.1)).filter DocItem.isMeta).length ≠ 0) ∧
+      (parseRecipe (α := α) env (render (pre ++ docSpec doc))).isValid = true ∧
+      (parseRecipe (α := α) env (render (pre ++ docSpec doc))).panic = none := by
+  obtain ⟨c, spans, h1, -, -, -, -, -, hd, hl, -, -⟩ :=
+    rtx_parseRecipe_doc (α := α) env pre doc hpre hok hsimple hplain hext hseps hw hfm
+  obtain ⟨k1, k2, k3, k4, k5⟩ := c07s_notice_result _ c spans _ h1 hd hl
+  refine ⟨spans, hl, k1, fun d hd' => ?_, ?_, k5⟩
+  · obtain ⟨e1, e2⟩ := k2 d hd'
+    exact ⟨e1, by rw [e1]; simp [metaNotice], e2⟩
+  · unfold AnalysisResult.isValid
+    rw [k3, k4]; rfl
+
+/-- **… and with references.**  The same for every document accepted by `C01_recipe_doc_refs`: the
+    components need not be plain definitions — an ingredient or cookware item may be a correctly
+    written reference `@&name` / `#&name` (an earlier definition of the name exists, no modifier the
+    definition lacks, no note, not both with an amount, same value kind: `xOK`, decidable by
+    `C01_reference_conditions_check`), an ingredient may be an intermediate reference `@&(~1)name{}` whose
+    target exists; `=` only on a numeric ingredient amount.  Then `parse` reports exactly the `>>` notice
+    (iff there is a `>>` line; one label per line) and nothing else — in particular none of
+    `reference-not-found`, `ref-conflicting-modifiers`, `note-in-reference`, `conflicting-ref-quantity`,
+    `text-value-in-ref`, `inter-ref-*` — has output, is valid, and reaches no panic site. -/
+theorem C07_sound_recipe_doc_refs (env : Env) (pre : List Tok) (doc : List (DocItem × List Tok))
+    (hpre : blankLinesOK pre = true) (hok : ∀ d ∈ doc, d.1.ok env.cs env.ext = true)
+    (hlock : ∀ d ∈ doc, d.1.lockOK = true) (hplain : ∀ d ∈ doc, d.1.plain env)
+    (hext : ∀ d ∈ doc, d.1.extOK α env)
+    (hrefs : xOK (α := α) env {} [] ⟨none, []⟩ 1 (doc.map (fun d => d.1.x)))
+    (hseps : sepsOK (doc.map (·.2)) = true) (hw : WellSpelled env.cs (pre ++ docSpec doc))
+    (hfm : parseFrontmatter env.cs (render (pre ++ docSpec doc)) = none) :
+    ∃ spans : List Span, spans.length = ((doc.map (·.1)).filter DocItem.isMeta).length ∧
+      (parseRecipe (α := α) env (render (pre ++ docSpec doc))).diags =
+        (if ((doc.map (·.1)).filter DocItem.isMeta).length = 0 then #[]
+         else #[⟨.warning, .analysis, "meta-deprecated", spans⟩]) ∧
+      (∀ d ∈ (parseRecipe (α := α) env (render (pre ++ docSpec doc))).diags.toList,
+        d = ⟨.warning, .analysis, "meta-deprecated", spans⟩ ∧ d.sev ≠ .error ∧
+        ((doc.map (·.1)).filter DocItem.isMeta).length ≠ 0) ∧
+      (parseRecipe (α := α) env (render (pre ++ docSpec doc))).isValid = true ∧
+      (parseRecipe (α := α) env (render (pre ++ docSpec doc))).panic = none := by
+  obtain ⟨c, spans, h1, -, -, -, -, -, hd, hl, -, -⟩ :=
+    rtdr_parseRecipe_doc (α := α) env pre doc hpre hok hlock hplain hext hrefs hseps hw hfm
+  obtain ⟨k1, k2, k3, k4, k5⟩ := c07s_notice_result _ c spans _ h1 hd hl
+  refine ⟨spans, hl, k1, fun d hd' => ?_, ?_, k5⟩
+  · obtain ⟨e1, e2⟩ := k2 d hd'
+    exact ⟨e1, by rw [e1]; simp [metaNotice], e2⟩
+  · unfold AnalysisResult.isValid
+    rw [k3, k4]; rfl
+
+/-! non-vacuity.  `C01_exFullDoc` (`>> source: grandma`, a step with ingredients, cookware, alias, note,
+    `== Main course ==`, a step with a timer, `>> source : book`) satisfies the hypotheses of
+    `C07_sound_recipe_doc` under `C01_stepsEnv` (MODIFIERS + ALIAS) and under `C01_fullEnv` (every
+    extension on), and `C01_exRefsDoc` (`@&flour{50%g}`, `@&(~1)dough{}`, `#&bowl{}`, a text paragraph, a
+    section, `@&( = ~ 1 )?loaf{}`) those of `C07_sound_recipe_doc_refs` under `C01_refsEnv` — each
+    hypothesis is an `example` of Props/C01.lean.  Here: the decidable ones again, and the counts —
+    the first document gets the notice with two labels, the second no diagnostic at all. -/
+example : (∀ d ∈ C01_exFullDoc, d.1.ok C01_stepsEnv.cs C01_stepsEnv.ext = true) ∧
+    (∀ d ∈ C01_exFullDoc, d.1.simple = true) ∧ sepsOK (C01_exFullDoc.map (·.2)) = true ∧
+    ((C01_exFullDoc.map (·.1)).filter DocItem.isMeta).length = 2 := by decide
+example : (∀ d ∈ C01_exRefsDoc, d.1.ok C01_refsEnv.cs C01_refsEnv.ext = true) ∧
+    (∀ d ∈ C01_exRefsDoc, d.1.lockOK = true) ∧ sepsOK (C01_exRefsDoc.map (·.2)) = true ∧
+    ((C01_exRefsDoc.map (·.1)).filter DocItem.isMeta).length = 0 := by decide
+example : xOK (α := Rat) C01_refsEnv {} [] ⟨none, []⟩ 1 (C01_exRefsDoc.map (fun d => d.1.x)) :=
+  rtdr_xOKB _ _ _ _ _ _ (by decide)
+
+/-! ### Analysis stage, exact forms of the one-directional theorems (wave 4)
+
+  Each function below appends a list of diagnostics that is a PURE function of its inputs (given by a
+  definition of the lemma files, named in the statement), and each catalogued kind is in that list IFF
+  its condition holds. -/
+
+/-- **Bad mode value, exactly** (completes `C07_bad_mode_value`).  From every collector state,
+    `RecipeCollector::metadata` on the entry `>> key: value` appends exactly `c07i_metaDiags` (a function
+    of the entry, the extension set and — for the three time keys — the recorded locations of standard
+    keys: for a `[…]` key under MODES at most one of `config-invalid-value` / `config-unknown-key`; for a
+    regular entry at most one of `std-unsupported-value` / `time-overridden`), and a diagnostic of kind
+    `config-invalid-value` is among them IF AND ONLY IF MODES is on, the trimmed key has the form `[…]`
+    (at least two characters), and either the inner key is `define` / `mode` and the value is none of
+    all / default / components / ingredients / steps / text, or the inner key is `duplicate` and the value
+    is none of new / default / reference / ref.  It is then the error (analysis stage) labelled with the
+    value's span, then the key's span. -/
+theorem C07_bad_mode_value_exact (env : Env) (key value : Text) (s : Col α) :
+    (metadataA env key value s).2.diags.toList = s.diags.toList ++ c07i_metaDiags env key value s.metaLocs ∧
+    ((∃ d ∈ c07i_metaDiags env key value s.metaLocs, d.kind = "config-invalid-value") ↔
+      ((env.ext.has Gen.EXT_MODES = true ∧ (key.trimmed env.cs).head? = some '[' ∧
+          (key.trimmed env.cs).getLast? = some ']' ∧ (key.trimmed env.cs).length ≥ 2) ∧
+       (((String.ofList (((key.trimmed env.cs).drop 1).dropLast) = "define" ∨
+            String.ofList (((key.trimmed env.cs).drop 1).dropLast) = "mode") ∧
+          ∀ w ∈ ["all", "default", "components", "ingredients", "steps", "text"],
+            String.ofList (value.outerTrimmed env.cs) ≠ w) ∨
+        (String.ofList (((key.trimmed env.cs).drop 1).dropLast) = "duplicate" ∧
+          ∀ w ∈ ["new", "default", "reference", "ref"], String.ofList (value.outerTrimmed env.cs) ≠ w)))) ∧
+    (∀ d ∈ c07i_metaDiags env key value s.metaLocs, d.kind = "config-invalid-value" →
+      d = ⟨.error, .analysis, "config-invalid-value", [value.span, key.span]⟩) := by
+  obtain ⟨k1, k2⟩ := c07i_metaDiags_invalid_iff env key value s.metaLocs
+  refine ⟨c07i_metadataA_exact env key value s, ?_, k2⟩
+  rw [k1]
+  unfold c07i_badModeValue c07i_isConfigKey
+  simp only [Bool.and_eq_true, beq_iff_eq, decide_eq_true_eq, and_assoc]
+
+/-- **Timer unit checks, exactly** (completes `C07_timer_unit_checks`).  From every collector state the
+    checks on a timer's converted quantity append exactly `c07i_timerCheckDiags` and change nothing else,
+    and (one equivalence per catalogued kind)
+    * `timer-value-text` is raised IFF ADVANCED_UNITS is on and the value is a text;
+    * `timer-unit-unknown` IFF ADVANCED_UNITS is on, there is a unit and the converter does not know it;
+    * `timer-unit-not-time` IFF ADVANCED_UNITS is on, there is a unit, the converter knows it, and its
+      physical quantity is not time;
+    every raised diagnostic is one of these three errors (analysis stage), the first labelled with the
+    value's span, the other two with the unit's span.  (A text value WITH a bad unit gets two errors.)
+    And for the timer EVENT: `timerA` appends exactly `c07i_timerEventDiags` — the scaling-lock warning iff
+    the value carries `=`, then the checks above on the `Fixed` value and the trimmed unit. -/
+theorem C07_timer_unit_checks_exact (env : Env) (q : Loc (PQuantity α)) (r : Quantity (ScalableValue α)) (s : Col α) :
+    (timerQuantityChecks env q r s).2.diags.toList = s.diags.toList ++ c07i_timerCheckDiags env q r ∧
+    (timerQuantityChecks env q r s).2 = { s with diags := (timerQuantityChecks env q r s).2.diags } ∧
+    ((∃ d ∈ c07i_timerCheckDiags env q r, d.kind = "timer-value-text") ↔
+      (env.ext.has Gen.EXT_ADVANCED_UNITS = true ∧ r.value.val.isText = true)) ∧
+    ((∃ d ∈ c07i_timerCheckDiags env q r, d.kind = "timer-unit-unknown") ↔
+      (env.ext.has Gen.EXT_ADVANCED_UNITS = true ∧ ∃ u, r.unit = some u ∧ env.findUnit u = none)) ∧
+    ((∃ d ∈ c07i_timerCheckDiags env q r, d.kind = "timer-unit-not-time") ↔
+      (env.ext.has Gen.EXT_ADVANCED_UNITS = true ∧
+        ∃ u pq, r.unit = some u ∧ env.findUnit u = some pq ∧ pq ≠ env.timeQ)) ∧
+    (∀ d ∈ c07i_timerCheckDiags env q r,
+      (d = ⟨.error, .analysis, "timer-value-text", [q.val.value.value.span]⟩ ∨
+       d = ⟨.error, .analysis, "timer-unit-unknown", [(q.val.unit.map (·.span)).getD ⟨0, 0⟩]⟩ ∨
+       d = ⟨.error, .analysis, "timer-unit-not-time", [(q.val.unit.map (·.span)).getD ⟨0, 0⟩]⟩)) ∧
+    (∀ lt : Loc (PTimer α), (timerA env lt s).2.diags.toList = s.diags.toList ++ c07i_timerEventDiags env lt) := by
+  obtain ⟨h1, h2⟩ := c07i_timerQuantityChecks_exact env q r s
+  obtain ⟨k1, k2, k3, k4⟩ := c07i_timerCheckDiags_kinds env q r
+  exact ⟨h1, h2, k1, k2, k3, k4, fun lt => c07i_timerA_exact env lt s⟩
+
+/-- **The checks of a resolved ingredient reference, exactly** (completes `C07_reference_checks`, which
+    gave membership only).  From every collector state `ingrRefChecks` appends exactly
+    `c07r_ingrRefDiags`: the `incompatible-units` warnings of the ADVANCED_UNITS loop over the definition and
+    its other references (one per table entry whose unit is incompatible — a frame lemma over the `for`
+    loop: the loop reads the tables of the state it started from and only pushes), then `note-in-reference`,
+    then `conflicting-ref-quantity`, then `text-value-in-ref`.  And, one equivalence per kind:
+    * `note-in-reference` is raised IFF the reference carries a note;
+    * `conflicting-ref-quantity` IFF both the reference and the definition have an amount and the
+      definition was made outside a step (components mode);
+    * `text-value-in-ref` IFF both have an amount and exactly one of the two values is a text;
+    * `incompatible-units` IFF ADVANCED_UNITS is on, the reference has an amount, and for the definition
+      or one of the references it lists, the entry exists, has an amount and `compatible_unit` fails. -/
+theorem C07_reference_checks_exact (env : Env) (input : Str) (li : Loc (PIngredient α))
+    (igr : Ingredient (ScalableValue α)) (refTo : Nat) (defn : Ingredient (ScalableValue α))
+    (defLoc : Loc (PIngredient α)) (s : Col α) :
+    (ingrRefChecks env input li igr refTo defn defLoc s).2.diags.toList =
+      s.diags.toList ++ c07r_ingrRefDiags env input li igr refTo defn defLoc s.ingredients s.locIngr ∧
+    ((∃ d ∈ c07r_ingrRefDiags env input li igr refTo defn defLoc s.ingredients s.locIngr,
+        d.kind = "note-in-reference") ↔ li.val.note.isSome = true) ∧
+    ((∃ d ∈ c07r_ingrRefDiags env input li igr refTo defn defLoc s.ingredients s.locIngr,
+        d.kind = "conflicting-ref-quantity") ↔
+      (defn.quantity.isSome = true ∧ igr.quantity.isSome = true ∧ ircDefinedInStep defn = false)) ∧
+    ((∃ d ∈ c07r_ingrRefDiags env input li igr refTo defn defLoc s.ingredients s.locIngr,
+        d.kind = "text-value-in-ref") ↔
+      ∃ rq dq, igr.quantity = some rq ∧ defn.quantity = some dq ∧ rq.value.val.isText ≠ dq.value.val.isText) ∧
+    ((∃ d ∈ c07r_ingrRefDiags env input li igr refTo defn defLoc s.ingredients s.locIngr,
+        d.kind = "incompatible-units") ↔
+      (env.ext.has Gen.EXT_ADVANCED_UNITS = true ∧ ∃ q, igr.quantity = some q ∧
+        ∃ idx ∈ refTo :: defn.relation.relation.referencedFrom, ∃ other otherLoc oq,
+          s.ingredients[idx]? = some other ∧ s.locIngr[idx]? = some otherLoc ∧ other.quantity = some oq ∧
+          compatibleUnit env oq.unit q.unit ≠ none)) := by
+  obtain ⟨k1, k2, k3, k4⟩ := c07r_ingrRefDiags_kinds env input li igr refTo defn defLoc s.ingredients s.locIngr
+  exact ⟨c07r_ingrRefChecks_exact env input li igr refTo defn defLoc s, k1, k2, k3, k4⟩
+
+/-- **… of a resolved cookware reference, exactly** (completes `C07_reference_checks_cookware`):
+    `cwRefChecks` appends exactly `c07r_cwRefDiags` — `note-in-reference` IFF the reference carries a note,
+    `conflicting-ref-quantity` IFF both have an amount and the definition was made outside a step,
+    `text-value-in-ref` IFF both have an amount and exactly one value is a text — in this order. -/
+theorem C07_reference_checks_cookware_exact (input : Str) (lc : Loc (PCookware α)) (cw : Cookware (ScalableValue α))
+    (defn : Cookware (ScalableValue α)) (defLoc : Loc (PCookware α)) (s : Col α) :
+    (cwRefChecks input lc cw defn defLoc s).2.diags.toList = s.diags.toList ++ c07r_cwRefDiags input lc cw defn defLoc ∧
+    ((∃ d ∈ c07r_cwRefDiags input lc cw defn defLoc, d.kind = "note-in-reference") ↔ lc.val.note.isSome = true) ∧
+    ((∃ d ∈ c07r_cwRefDiags input lc cw defn defLoc, d.kind = "conflicting-ref-quantity") ↔
+      (defn.quantity.isSome = true ∧ cw.quantity.isSome = true ∧ crcDefinedInStep defn = false)) ∧
+    ((∃ d ∈ c07r_cwRefDiags input lc cw defn defLoc, d.kind = "text-value-in-ref") ↔
+      ∃ rq dq, cw.quantity = some rq ∧ defn.quantity = some dq ∧ rq.val.isText ≠ dq.val.isText) := by
+  obtain ⟨k1, k2, k3⟩ := c07r_cwRefDiags_kinds input lc cw defn defLoc
+  exact ⟨c07r_cwRefChecks_exact input lc cw defn defLoc s, k1, k2, k3⟩
+
+/-! non-vacuity: `>> [mode]: bogus` under MODES raises exactly the error; `>> [mode]: all` and a plain entry
+    raise nothing; `~{=x%parsec}` under ADVANCED_UNITS with a converter that knows only `min`: lock warning,
+    text value, unknown unit; a reference with a note and a text amount against a numeric definition made in
+    a step: `note-in-reference` then `text-value-in-ref` -/
+example : c07i_metaDiags C01_modesEnv (C01_txt "[mode]" 3) (C01_txt "bogus" 11) [] =
+    [⟨.error, .analysis, "config-invalid-value", [⟨11, 16⟩, ⟨3, 9⟩]⟩] := by decide
+example : c07i_metaDiags C01_modesEnv (C01_txt "[mode]" 3) (C01_txt "all" 11) [] = [] ∧
+    c07i_metaDiags C01_modesEnv (C01_txt "source" 3) (C01_txt "book" 11) [] = [] := by decide
+example : c07i_timerEventDiags (α := Rat) { C07_coreEnv with ext := ⟨Gen.EXT_ADVANCED_UNITS⟩ }
+      ⟨⟨none, some ⟨⟨⟨⟨.text ['x'], ⟨3, 4⟩⟩, some ⟨2, 3⟩⟩, some (C01_txt "parsec" 5)⟩, ⟨2, 11⟩⟩⟩, ⟨0, 12⟩⟩ =
+    [⟨.warning, .analysis, "unnecessary-scaling-lock", [⟨3, 4⟩]⟩, ⟨.error, .analysis, "timer-value-text", [⟨3, 4⟩]⟩,
+     ⟨.error, .analysis, "timer-unit-unknown", [⟨5, 11⟩]⟩] := by decide
+
+/-! ### Empty value in cookware and timers, and in quantities without `%` (wave 4) -/
+
+/-- **Empty value in a cookware item and in a timer** (`#pot{ %x}`, `~{ %min}`, `~{=%}`; lifts
+    `C07_empty_value_component`, same quantity tokens `pre ++ lk ++ vt ++ [%] ++ ut` with a blank non-numeric
+    value, EVERY extension set).  What the code does: a cookware item with a unit is itself an error, so
+    * `cookware` (no modifier tokens, non-blank name without alias separator) returns the item with the
+      quantity's value and lock and pushes EXACTLY `empty-value` (error, parse, on the blank value text), then
+      `empty-unit` (warning, on the `%`) iff the unit text is blank, then `cookware-unit` (error, labelled from
+      the `%` to the end of the unit) iff the unit text is NOT blank;
+    * `timer` (no modifier tokens, no alias separator; followed by anything) returns the timer with that
+      quantity and pushes EXACTLY the note warning `timerNoteEvs` (iff `(…)` follows), then `empty-value`, then —
+      iff the unit text is blank — `empty-unit` and `timer-missing-unit` (error, labelled with the position
+      right after the value, i.e. where the `%` starts). -/
+theorem C07_empty_value_cookware_timer (s s1 s2 s3 : BP α) (pre lk vt ut : List Tok) (pct : Tok) (body : Body)
+    (hpre : ∀ t ∈ pre, isWsComment t.kind = true)
+    (hlk : lk = [] ∨ ∃ e, lk = [e] ∧ e.kind = .eq)
+    (hhead : lk = [] → ∀ t0, vt.head? = some t0 → isWsComment t0.kind = false ∧ t0.kind ≠ .eq)
+    (hvp : ∀ t ∈ vt, t.kind ≠ .percent) (hp : pct.kind = .percent)
+    (hnone : numOrRange (α := α) (s.ext.has Gen.EXT_RANGE_VALUES) vt = none)
+    (hemp : (buildText ((vt.head?.map (·.start)).getD
+          (offAt (pre ++ (lk ++ (vt ++ pct :: ut))) (pre.length + lk.length + vt.length))) vt).isTextEmpty s.cs = true)
+    (hq : body.quantity = some (pre ++ (lk ++ (vt ++ pct :: ut))))
+    (ha : s.ext.has Gen.EXT_COMPONENT_ALIAS = false ∨ ∀ t ∈ body.name, t.kind ≠ .or) :
+    (∀ s4 note, Cut .hash s [] body s1 s2 s3 → noteP s3 = (note, s4) →
+      (buildText (curOff s2) body.name).isTextEmpty s.cs = false →
+      (∃ q : Loc (PQValue α), (cookwareP s).1 = some (.cookware
+          ⟨⟨⟨Modifiers.empty, Span.pos (curOff s1)⟩, buildText (curOff s2) body.name, none, some q, note⟩,
+           ⟨curOff s, curOff s4⟩⟩) ∧ q.val.lock = lockSpan lk) ∧
+      Pushed ((emptyValueEv (buildText ((vt.head?.map (·.start)).getD
+          (offAt (pre ++ (lk ++ (vt ++ pct :: ut))) (pre.length + lk.length + vt.length))) vt) :: emptyUnitEvs pct ut s.cs) ++
+          (if (buildText pct.stop ut).isTextEmpty s.cs then []
+           else [.error ⟨.error, .parse, "cookware-unit", [⟨pct.start, (buildText pct.stop ut).span.stop⟩]⟩]))
+        s (cookwareP s).2) ∧
+    (Cut .tilde s [] body s1 s2 s3 →
+      (∃ q : Loc (PQuantity α), (timerP s).1 = some (.timer
+          ⟨⟨if (buildText (curOff s2) body.name).isTextEmpty s.cs then none
+              else some (buildText (curOff s2) body.name), some q⟩, ⟨curOff s, curOff s3⟩⟩) ∧
+          q.val.value.lock = lockSpan lk) ∧
+      Pushed (timerNoteEvs s3 ++ ((emptyValueEv (buildText ((vt.head?.map (·.start)).getD
+          (offAt (pre ++ (lk ++ (vt ++ pct :: ut))) (pre.length + lk.length + vt.length))) vt) :: emptyUnitEvs pct ut s.cs) ++
+          (if (buildText pct.stop ut).isTextEmpty s.cs then
+            [.error ⟨.error, .parse, "timer-missing-unit",
+              [Span.pos (offAt (pre ++ (lk ++ (vt ++ pct :: ut))) (pre.length + lk.length + vt.length))]⟩]
+           else [])))
+        s (timerP s).2) := by
+  constructor
+  · intro s4 note hc hnote hn
+    have q4 : Same s s4 := hc.same.trans (noteP_same hnote)
+    have ht := c07f_cookwareTail_q (α := α) (curOff s) (curOff s4) (curOff s1) (curOff s2) body note s4 _ hq
+      (by rw [q4.2.1]; exact ha) (by rw [q4.1]; exact hn)
+      (emptyValueEv (buildText ((vt.head?.map (·.start)).getD
+          (offAt (pre ++ (lk ++ (vt ++ pct :: ut))) (pre.length + lk.length + vt.length))) vt) :: emptyUnitEvs pct ut s.cs)
+      (fun r => r.quantity.val.unit =
+          (if (buildText pct.stop ut).isTextEmpty s.cs then none else some (buildText pct.stop ut)) ∧
+        r.quantity.val.value.lock = lockSpan lk ∧ r.unitSep = some ⟨pct.start, pct.stop⟩ ∧
+        r.quantity.val.value.value.span.stop =
+          offAt (pre ++ (lk ++ (vt ++ pct :: ut))) (pre.length + lk.length + vt.length))
+      (fun sq qq => by
+        have h := c07f_parseQuantity_empty pre lk vt ut pct sq hpre hlk hhead hvp hp
+          (by rw [qq.2.1, q4.2.1]; exact hnone) (by rw [qq.1, q4.1]; exact hemp)
+        rw [qq.1, q4.1] at h
+        exact h)
+    unfold Sat at ht
+    rw [← cookwareP_cut hc hnote] at ht
+    obtain ⟨q, ⟨hu, hl, hsep, -⟩, p, hr⟩ := ht
+    refine ⟨⟨_, hr, hl⟩, ?_⟩
+    rw [c07f_cwUnitEvs_of q pct _ _ hu hsep] at p
+    exact (q4.pushed.trans p).cast (by simp)
+  · intro hc
+    have q3 : Same s s3 := hc.same
+    have ht := c07f_timerTail_q (α := α) (curOff s) (curOff s3) (curOff s2) body s3 _ hq
+      (by rw [q3.2.1]; exact ha)
+      (emptyValueEv (buildText ((vt.head?.map (·.start)).getD
+          (offAt (pre ++ (lk ++ (vt ++ pct :: ut))) (pre.length + lk.length + vt.length))) vt) :: emptyUnitEvs pct ut s.cs)
+      (fun r => r.quantity.val.unit =
+          (if (buildText pct.stop ut).isTextEmpty s.cs then none else some (buildText pct.stop ut)) ∧
+        r.quantity.val.value.lock = lockSpan lk ∧ r.unitSep = some ⟨pct.start, pct.stop⟩ ∧
+        r.quantity.val.value.value.span.stop =
+          offAt (pre ++ (lk ++ (vt ++ pct :: ut))) (pre.length + lk.length + vt.length))
+      (fun sq hcs hext => by
+        have h := c07f_parseQuantity_empty pre lk vt ut pct sq hpre hlk hhead hvp hp
+          (by rw [hext, q3.2.1]; exact hnone) (by rw [hcs, q3.1]; exact hemp)
+        rw [hcs, q3.1] at h
+        exact h)
+    unfold Sat at ht
+    rw [← timerP_cut hc, q3.1] at ht
+    obtain ⟨q, ⟨hu, hl, -, hstop⟩, p, hr⟩ := ht
+    refine ⟨⟨_, hr, hl⟩, ?_⟩
+    rw [c07f_missingUnitEvs_of q _ _ _ hu hstop] at p
+    exact (q3.pushed.trans p).cast (by simp)
+
+/-- **Empty value in a quantity without `%`** (`{=}`, `{= }`, `{ = /* c */ }`): the quantity tokens are
+    `pre ++ lk ++ vt` — blanks/comments, an optional lock `=`, value tokens without `%` that do not read as a
+    number and whose text is blank.  Under ADVANCED_UNITS the value tokens are blanks/comments (then the
+    advanced reader declines without event); without it any such tokens.  Then
+    * `parse_quantity` pushes EXACTLY `empty-value` (error, parse, labelled with the blank value text: the
+      position after the lock when there is no value token) — no `empty-unit`, there is no `%` — and returns
+      the lock, no unit, no separator;
+    * an ingredient (no modifiers, non-blank name without alias separator) pushes exactly that;
+    * a cookware item likewise (no unit, so no `cookware-unit`);
+    * a timer pushes the note warning (iff `(…)` follows), `empty-value`, and `timer-missing-unit` (error,
+      labelled with the position at the end of the quantity tokens). -/
+theorem C07_empty_value_no_percent (s : BP α) (pre lk vt : List Tok)
+    (hne : pre ++ (lk ++ vt) ≠ [])
+    (hpre : ∀ t ∈ pre, isWsComment t.kind = true)
+    (hlk : lk = [] ∨ ∃ e, lk = [e] ∧ e.kind = .eq)
+    (hhead : lk = [] → ∀ t0, vt.head? = some t0 → isWsComment t0.kind = false ∧ t0.kind ≠ .eq)
+    (hvp : ∀ t ∈ vt, t.kind ≠ .percent)
+    (hadv : s.ext.has Gen.EXT_ADVANCED_UNITS = false ∨ ∀ t ∈ vt, isWsComment t.kind = true)
+    (hnone : numOrRange (α := α) (s.ext.has Gen.EXT_RANGE_VALUES) vt = none)
+    (hemp : (buildText ((vt.head?.map (·.start)).getD
+          (offAt (pre ++ (lk ++ vt)) (pre.length + lk.length + vt.length))) vt).isTextEmpty s.cs = true) :
+    (Pushed [emptyValueEv (buildText ((vt.head?.map (·.start)).getD
+          (offAt (pre ++ (lk ++ vt)) (pre.length + lk.length + vt.length))) vt)] s (parseQuantity (α := α) (pre ++ (lk ++ vt)) s).2 ∧
+      (parseQuantity (α := α) (pre ++ (lk ++ vt)) s).1.quantity.val.unit = none ∧
+      (parseQuantity (α := α) (pre ++ (lk ++ vt)) s).1.quantity.val.value.lock = lockSpan lk ∧
+      (parseQuantity (α := α) (pre ++ (lk ++ vt)) s).1.unitSep = none) ∧
+    (∀ s1 s2 s3 body, body.quantity = some (pre ++ (lk ++ vt)) →
+      (s.ext.has Gen.EXT_COMPONENT_ALIAS = false ∨ ∀ t ∈ body.name, t.kind ≠ .or) →
+      (∀ s4 note, noteP s3 = (note, s4) → (buildText (curOff s2) body.name).isTextEmpty s.cs = false →
+        (Cut .at s [] body s1 s2 s3 → Pushed [emptyValueEv (buildText ((vt.head?.map (·.start)).getD
+          (offAt (pre ++ (lk ++ vt)) (pre.length + lk.length + vt.length))) vt)] s (ingredientP s).2 ∧
+          ∃ q : Loc (PQuantity α), (ingredientP s).1 = some (.ingredient
+            ⟨⟨⟨Modifiers.empty, Span.pos (curOff s1)⟩, none, buildText (curOff s2) body.name, none, some q, note⟩,
+             ⟨curOff s, curOff s4⟩⟩) ∧ q.val.unit = none ∧ q.val.value.lock = lockSpan lk) ∧
+        (Cut .hash s [] body s1 s2 s3 → Pushed [emptyValueEv (buildText ((vt.head?.map (·.start)).getD
+          (offAt (pre ++ (lk ++ vt)) (pre.length + lk.length + vt.length))) vt)] s (cookwareP s).2 ∧
+          ∃ q : Loc (PQValue α), (cookwareP s).1 = some (.cookware
+            ⟨⟨⟨Modifiers.empty, Span.pos (curOff s1)⟩, buildText (curOff s2) body.name, none, some q, note⟩,
+             ⟨curOff s, curOff s4⟩⟩) ∧ q.val.lock = lockSpan lk)) ∧
+      (Cut .tilde s [] body s1 s2 s3 →
+        Pushed (timerNoteEvs s3 ++ [emptyValueEv (buildText ((vt.head?.map (·.start)).getD
+          (offAt (pre ++ (lk ++ vt)) (pre.length + lk.length + vt.length))) vt),
+            .error ⟨.error, .parse, "timer-missing-unit",
+              [Span.pos (offAt (pre ++ (lk ++ vt)) (pre.length + lk.length + vt.length))]⟩]) s (timerP s).2 ∧
+        ∃ q : Loc (PQuantity α), (timerP s).1 = some (.timer
+          ⟨⟨if (buildText (curOff s2) body.name).isTextEmpty s.cs then none
+              else some (buildText (curOff s2) body.name), some q⟩, ⟨curOff s, curOff s3⟩⟩) ∧
+          q.val.unit = none ∧ q.val.value.lock = lockSpan lk)) := by
+  have hPQ : ∀ sq : BP α, sq.cs = s.cs → sq.ext = s.ext →
+      Sat (parseQuantity (α := α) (pre ++ (lk ++ vt))) sq (fun r s' =>
+        Pushed [emptyValueEv (buildText ((vt.head?.map (·.start)).getD
+          (offAt (pre ++ (lk ++ vt)) (pre.length + lk.length + vt.length))) vt)] sq s' ∧
+        (r.quantity.val.unit = none ∧ r.quantity.val.value.lock = lockSpan lk ∧ r.unitSep = none ∧
+          r.quantity.val.value.value.span.stop = offAt (pre ++ (lk ++ vt)) (pre.length + lk.length + vt.length))) := by
+    intro sq hcs hext
+    have h := c07f_parseQuantity_nopct pre lk vt sq hne hpre hlk hhead hvp (by rw [hext]; exact hadv)
+      (by rw [hext]; exact hnone) (by rw [hcs]; exact hemp)
+    exact h
+  refine ⟨?_, ?_⟩
+  · have h := hPQ s rfl rfl
+    unfold Sat at h
+    exact ⟨h.1, h.2.1, h.2.2.1, h.2.2.2.1⟩
+  · intro s1 s2 s3 body hq ha
+    refine ⟨fun s4 note hnote hn => ⟨fun hc => ?_, fun hc => ?_⟩, fun hc => ?_⟩
+    · have q4 : Same s s4 := hc.same.trans (noteP_same hnote)
+      have ht := c07e_ingredientTail_q (α := α) (curOff s) (curOff s4) (curOff s1) (curOff s2) body note s4 _ hq
+        (by rw [q4.2.1]; exact ha) (by rw [q4.1]; exact hn) _ _
+        (fun sq qq => hPQ sq (qq.1.trans q4.1) (qq.2.1.trans q4.2.1))
+      unfold Sat at ht
+      rw [← ingredientP_cut hc hnote] at ht
+      obtain ⟨p, q, ⟨hu, hl, -, -⟩, hr⟩ := ht
+      exact ⟨(q4.pushed.trans p).cast (by simp), q.quantity, hr, hu, hl⟩
+    · have q4 : Same s s4 := hc.same.trans (noteP_same hnote)
+      have ht := c07f_cookwareTail_q (α := α) (curOff s) (curOff s4) (curOff s1) (curOff s2) body note s4 _ hq
+        (by rw [q4.2.1]; exact ha) (by rw [q4.1]; exact hn) _ _
+        (fun sq qq => hPQ sq (qq.1.trans q4.1) (qq.2.1.trans q4.2.1))
+      unfold Sat at ht
+      rw [← cookwareP_cut hc hnote] at ht
+      obtain ⟨q, ⟨hu, hl, -, -⟩, p, hr⟩ := ht
+      have hcw : c07f_cwUnitEvs q = [] := by unfold c07f_cwUnitEvs; rw [hu]
+      rw [hcw] at p
+      exact ⟨(q4.pushed.trans p).cast (by simp), _, hr, hl⟩
+    · have q3 : Same s s3 := hc.same
+      have ht := c07f_timerTail_q (α := α) (curOff s) (curOff s3) (curOff s2) body s3 _ hq
+        (by rw [q3.2.1]; exact ha) _ _
+        (fun sq hcs hext => hPQ sq (hcs.trans q3.1) (hext.trans q3.2.1))
+      unfold Sat at ht
+      rw [← timerP_cut hc, q3.1] at ht
+      obtain ⟨q, ⟨hu, hl, -, hstop⟩, p, hr⟩ := ht
+      have hm : c07f_missingUnitEvs q = [.error ⟨.error, .parse, "timer-missing-unit",
+          [Span.pos (offAt (pre ++ (lk ++ vt)) (pre.length + lk.length + vt.length))]⟩] := by
+        unfold c07f_missingUnitEvs; rw [hu, hstop]; rfl
+      rw [hm] at p
+      exact ⟨(q3.pushed.trans p).cast (by simp), q.quantity, hr, hu, hl⟩
+
+/-! non-vacuity: `#pot{ %x}` (empty value + unit on cookware), `~{ %}` (empty value, empty unit, missing
+    unit), `@x{=}` and `~{= }` with ADVANCED_UNITS on: the cuts exist, the quantity tokens have the stated shapes,
+    and the pushed events are those of the theorems -/
+def C07_exPotEV : BP Rat :=
+  ⟨[⟨.hash, ['#'], 0⟩, ⟨.word, ['p', 'o', 't'], 1⟩, ⟨.openBrace, ['{'], 4⟩, ⟨.ws, [' '], 5⟩, ⟨.percent, ['%'], 6⟩,
+    ⟨.word, ['x'], 7⟩, ⟨.closeBrace, ['}'], 8⟩], 0, ⟨0⟩, toyCharSpec, #[], none⟩
+example : ∃ body note s1 s2 s3 s4, Cut .hash C07_exPotEV [] body s1 s2 s3 ∧ noteP s3 = (note, s4) ∧
+    body.quantity = some ([⟨.ws, [' '], 5⟩] ++ ([] ++ ([] ++ ⟨.percent, ['%'], 6⟩ :: [⟨.word, ['x'], 7⟩]))) ∧
+    (buildText (curOff s2) body.name).isTextEmpty C07_exPotEV.cs = false :=
+  ⟨_, _, _, _, _, _, ⟨⟨_, rfl⟩, rfl, rfl⟩, rfl, rfl, rfl⟩
+example : (cookwareP C07_exPotEV).2.evs = #[.error ⟨.error, .parse, "empty-value", [⟨6, 6⟩]⟩,
+    .error ⟨.error, .parse, "cookware-unit", [⟨6, 8⟩]⟩] := rfl
+def C07_exTimerEV : BP Rat :=
+  ⟨[⟨.tilde, ['~'], 0⟩, ⟨.openBrace, ['{'], 1⟩, ⟨.ws, [' '], 2⟩, ⟨.percent, ['%'], 3⟩, ⟨.closeBrace, ['}'], 4⟩],
+    0, ⟨0⟩, toyCharSpec, #[], none⟩
+example : ∃ body s1 s2 s3, Cut .tilde C07_exTimerEV [] body s1 s2 s3 ∧
+    body.quantity = some ([⟨.ws, [' '], 2⟩] ++ ([] ++ ([] ++ ⟨.percent, ['%'], 3⟩ :: []))) :=
+  ⟨_, _, _, _, ⟨⟨_, rfl⟩, rfl, rfl⟩, rfl⟩
+example : (timerP C07_exTimerEV).2.evs = #[.error ⟨.error, .parse, "empty-value", [⟨3, 3⟩]⟩,
+    .warning ⟨.warning, .parse, "empty-unit", [⟨3, 4⟩]⟩, .error ⟨.error, .parse, "timer-missing-unit", [⟨3, 3⟩]⟩] := rfl
+def C07_exLockOnly : BP Rat :=
+  ⟨[⟨.at, ['@'], 0⟩, ⟨.word, ['x'], 1⟩, ⟨.openBrace, ['{'], 2⟩, ⟨.eq, ['='], 3⟩, ⟨.closeBrace, ['}'], 4⟩],
+    0, ⟨Gen.EXT_ADVANCED_UNITS⟩, toyCharSpec, #[], none⟩
+example : ∃ body s1 s2 s3, Cut .at C07_exLockOnly [] body s1 s2 s3 ∧
+    body.quantity = some ([] ++ ([⟨.eq, ['='], 3⟩] ++ [])) ∧
+    C07_exLockOnly.ext.has Gen.EXT_ADVANCED_UNITS = true ∧
+    numOrRange (α := Rat) (C07_exLockOnly.ext.has Gen.EXT_RANGE_VALUES) [] = none :=
+  ⟨_, _, _, _, ⟨⟨_, rfl⟩, rfl, rfl⟩, rfl, rfl, rfl⟩
+example : (ingredientP C07_exLockOnly).2.evs = #[.error ⟨.error, .parse, "empty-value", [⟨4, 4⟩]⟩] := rfl
+def C07_exTimerLock : BP Rat :=
+  ⟨[⟨.tilde, ['~'], 0⟩, ⟨.openBrace, ['{'], 1⟩, ⟨.eq, ['='], 2⟩, ⟨.ws, [' '], 3⟩, ⟨.closeBrace, ['}'], 4⟩],
+    0, ⟨Gen.EXT_ADVANCED_UNITS⟩, toyCharSpec, #[], none⟩
+example : ∃ body s1 s2 s3, Cut .tilde C07_exTimerLock [] body s1 s2 s3 ∧
+    body.quantity = some ([] ++ ([⟨.eq, ['='], 2⟩] ++ [⟨.ws, [' '], 3⟩])) ∧
+    numOrRange (α := Rat) (C07_exTimerLock.ext.has Gen.EXT_RANGE_VALUES) [⟨.ws, [' '], 3⟩] = none ∧
+    (buildText 3 [⟨.ws, [' '], 3⟩]).isTextEmpty toyCharSpec = true :=
+  ⟨_, _, _, _, ⟨⟨_, rfl⟩, rfl, rfl⟩, rfl, rfl, rfl⟩
+example : (timerP C07_exTimerLock).2.evs = #[.error ⟨.error, .parse, "empty-value", [⟨3, 4⟩]⟩,
+    .error ⟨.error, .parse, "timer-missing-unit", [⟨4, 4⟩]⟩] := rfl
+
+/-! ### Soundness under every extension set: C02's premises from the abstract document (wave 4) -/
+
+/-- **The converter premise of C02, from the abstract document.**  For a well-formed document of steps (the
+    hypotheses of `C07_sound_recipe_steps`, extension flags arbitrary), if every segment satisfies the
+    extension-independent predicate `SegX.convCore` — a text run shows something and `find_inline_quantity`
+    finds nothing in it (in particular when it contains no ASCII digit: second part), a timer amount is
+    numeric and its unit, if any, is a time unit of the converter — then every event the pull parser
+    delivers for the printed text satisfies `evConvCore`: the premise `hconv` of
+    `C07_sound_recipe_steps_all_extensions` / `C02_parse_ext_irrelevant` holds. -/
+theorem C07_conv_premise_from_document (env : Env) (pre : List Tok) (doc : List (List SegX × List Tok))
+    (hpre : blankLinesOK pre = true) (hok : ∀ d ∈ doc, (DocItem.step d.1).ok env.cs env.ext = true)
+    (hsimple : ∀ d ∈ doc, d.1.all SegX.simple = true) (hseps : sepsOK (doc.map (·.2)) = true)
+    (hw : WellSpelled env.cs (pre ++ docSpec (stepsDoc doc)))
+    (hfm : parseFrontmatter env.cs (render (pre ++ docSpec (stepsDoc doc))) = none)
+    (hx : ∀ d ∈ doc, ∀ sg ∈ d.1, sg.convCore α env) :
+    (pullEvents (α := α) env.cs env.ext (render (pre ++ docSpec (stepsDoc doc)))).1.toList.all
+      (evConvCore α env) = true ∧
+    (∀ l : List Tok, l.flatMap vis ≠ [] → (l.flatMap vis).all (fun c => !isAsciiDigitC c) = true →
+      (SegX.text l).convCore α env) :=
+  ⟨c07c_steps_evConvCore env pre doc hpre hok hsimple hseps hw hfm hx,
+   fun l h1 h2 => ⟨h1, rts_no_digit_no_inline env _ _ _ h2⟩⟩
+
+/-- **… under EVERY extension set, with the converter premise on the abstract document** (partial).
+    `C07_sound_recipe_steps_all_extensions` with its premise `hconv` (a check on the EVENTS of the printed
+    text) replaced by `SegX.convCore` on the segments of the abstract document.
+    Partial: the other C02 premise, `UsesNoneInput` (every block of the token stream is free of extension
+    syntax: no modifier character after a marker, no `|` in a name, no `-` in an amount, an amount shape the
+    advanced-units reader declines, every timer has an amount) is still a decidable check on the printed
+    text; deriving it from a predicate on the segments needs `stepCore` / `longBody` of the spelled tokens of a
+    step, segment by segment, which is not done. -/
+theorem C07_sound_recipe_steps_all_extensions_abs_partial (env : Env) (hws : env.cs.uws ' ' = true)
+    (pre : List Tok) (doc : List (List SegX × List Tok))
+    (hadv : env.ext.has Gen.EXT_ADVANCED_UNITS = false) (hinl : env.ext.has Gen.EXT_INLINE_QUANTITIES = false)
+    (hpre : blankLinesOK pre = true) (hok : ∀ d ∈ doc, (DocItem.step d.1).ok env.cs env.ext = true)
+    (hsimple : ∀ d ∈ doc, d.1.all SegX.simple = true) (hseps : sepsOK (doc.map (·.2)) = true)
+    (hw : WellSpelled env.cs (pre ++ docSpec (stepsDoc doc)))
+    (hfm : parseFrontmatter env.cs (render (pre ++ docSpec (stepsDoc doc))) = none)
+    (hu : UsesNoneInput env.cs (render (pre ++ docSpec (stepsDoc doc))) = true)
+    (hx : ∀ d ∈ doc, ∀ sg ∈ d.1, sg.convCore α env) (e : Ext) :
+    (parseRecipe (α := α) { env with ext := e } (render (pre ++ docSpec (stepsDoc doc)))).diags = #[] ∧
+    (parseRecipe (α := α) { env with ext := e } (render (pre ++ docSpec (stepsDoc doc)))).isValid = true ∧
+    (parseRecipe (α := α) { env with ext := e } (render (pre ++ docSpec (stepsDoc doc)))).panic = none :=
+  C07_sound_recipe_steps_all_extensions env hws pre doc hadv hinl hpre hok hsimple hseps hw hfm hu
+    (c07c_steps_evConvCore env pre doc hpre hok hsimple hseps hw hfm hx) e
+
+/-! non-vacuity: the segments of `C07_coreDoc` (`Mix @salt{} for ~{10%min}.`) satisfy `SegX.convCore` for
+    `C07_coreEnv` (the text runs have no digit; the timer amount is the number 10 in `min`, a time unit) -/
+example : ∀ d ∈ C07_coreDoc, ∀ sg ∈ d.1, sg.convCore Rat C07_coreEnv := by
+  intro d hd sg hsg
+  simp only [C07_coreDoc, List.mem_cons, List.not_mem_nil, or_false] at hd
+  subst hd
+  simp only [List.mem_cons, List.not_mem_nil, or_false] at hsg
+  rcases hsg with rfl | rfl | rfl | rfl | rfl
+  · exact ⟨by decide, rts_no_digit_no_inline _ _ _ _ (by decide)⟩
+  · trivial
+  · exact ⟨by decide, rts_no_digit_no_inline _ _ _ _ (by decide)⟩
+  · intro q hq
+    cases hq
+    exact ⟨by decide, fun u hu => by cases hu; decide⟩
+  · exact ⟨by decide, rts_no_digit_no_inline _ _ _ _ (by decide)⟩
 
 end Cook
